@@ -839,3 +839,12 @@ v("d44-leaf-copy-names-unnamed-table", "C07", VR,
 
 v("c06-s6-twin-elimination-removed-from-extend", "C06", VR,
   "        if self.is_trivial_when_intermediate_():\n            return self.sources[0].extend_parsed_(", "        if False:\n            return self.sources[0].extend_parsed_(", expect="silent")
+
+v("d45-union-operand-not-enclosed", "C04", SM,
+  "            substr_1 = enclose_suffix(near_sql.sub_sql1, substr_1)\n            substr_2 = enclose_suffix(near_sql.sub_sql2, substr_2)\n", "")
+v("d45-union-enclosure-ignores-suffix", "C04", SM,
+  '                sub_suffix = getattr(sub_sql.near_sql, "suffix", None)\n', '                sub_suffix = None\n')
+
+v("d46-merged-terms-not-reordered", "C04", SM, "                subsql.terms = merged_terms\n", "")
+v("d46-merged-terms-sub-order-first", "C04", SM,
+  "                for k in list(terms.keys()) + list(subsql.terms.keys()):", "                for k in list(subsql.terms.keys()) + list(terms.keys()):")
